@@ -5,7 +5,7 @@
    every run (harness/props/c19.py); [sub n] is the model at recursion fuel n, and the theorems
    hold at every fuel. *)
 From Coq Require Import List ZArith Bool String.
-From BT Require Import Gen.ClassTable Gen.SignSets Core.PyVal Core.Hint Core.Door Core.DoorProofs.
+From BT Require Import Gen.ClassTable Gen.SignSets Core.PyVal Core.Hint Core.Door Core.DoorProofs Core.DoorFuel.
 Import ListNotations.
 
 (* 1. Reflexivity, three-valued: for every hint of the grammar, is_subhint(h, h) and
@@ -52,6 +52,15 @@ Theorem C19_reflexivity_raises :
   is_subhint h h = RX.
 Proof. exact refl_raises_on_arity_clash. Qed.
 Print Assumptions C19_reflexivity_raises.
+
+(* 6. Fuel adequacy: the model's recursion fuel never runs out, for every pair of hints of the
+      grammar.  The three outcomes the theorems above speak about (True, False, the exception) are
+      the only answers of [is_subhint] and [hint_equal]; the out-of-fuel value of the totalised
+      definitions is unreachable, so no statement above holds through it. *)
+Theorem C19_model_never_out_of_fuel : forall a b,
+  is_subhint a b <> RFuel /\ hint_equal a b <> RFuel.
+Proof. intros a b. split; [exact (is_subhint_has_fuel a b)|exact (hint_equal_has_fuel a b)]. Qed.
+Print Assumptions C19_model_never_out_of_fuel.
 
 (* Non-vacuity of (3): list[bool] <= Sequence[int | str] and tuple[bool, str] <= tuple[object-free union, ...]. *)
 Example C19_example :
